@@ -114,6 +114,11 @@ def gen_set_case(r, i):
         if a is None:
             a = f.split(".")[-1]
         imports.append([f, a])
+    if r.random() < .15:
+        # several un-aliased plain imports sharing a root package (each binds the same top-level name), also `import aa`
+        root = ident(r, 4)
+        for d in r.sample([root, root + "." + ident(r, 3), root + "." + ident(r, 3) + "." + ident(r, 3), root + "." + ident(r, 5)], r.randint(2, 4)):
+            imports.append([d, d])
     P = rand_params(r)
     if r.random() < .15:
         # __future__ together with modules whose names sort before '__future__' (uppercase, _A.._Z, __a..__e,
@@ -479,6 +484,14 @@ def _printed(f):
         return {"error": type(e).__name__}
 
 
+def _reformat(text, P):
+    """the tool-level second pass: reformat_import_statements (bin/reformat-imports) on the printed block; its import
+    blocks are read with ImportSet(..., ignore_shadowed=True)"""
+    from pyflyby._imports2s import reformat_import_statements
+    from pyflyby._parse import PythonBlock
+    return reformat_import_statements(PythonBlock(text), params=P).text.joined
+
+
 def impl_case(c):
     from pyflyby._importclns import ImportSet
     from pyflyby._importstmt import Import
@@ -495,6 +508,7 @@ def impl_case(c):
             def again():
                 return ImportSet(text).pretty_print(P)
             res["reprint"] = _printed(again)
+            res["reformat"] = _printed(lambda: _reformat(text, P))
             res["reread"] = _printed(lambda: sorted(_pairs(ImportSet(text)._importset)))
         return res
     if k == "seq":
@@ -508,6 +522,7 @@ def impl_case(c):
                 if "text" in pr:
                     text = pr["text"]
                     o["reprint"] = _printed(lambda: ImportSet(text).pretty_print(P))
+                    o["reformat"] = _printed(lambda: _reformat(text, P))
                 res["ops"].append(o)
             elif op[0] == "repr":
                 res["ops"].append({"repr": repr(s)})
@@ -737,6 +752,8 @@ def oracle_set(ctx, c, im):
         bad.append(("roundtrip", "re-read imports %r differ from the printed set %r" % (got, sorted(im["set"]))))
     if im.get("reprint") != {"text": text}:
         bad.append(("reprint", "second pass gives %r" % (im.get("reprint"),)))
+    if "reformat" in im and text and im["reformat"] != {"text": text}:
+        bad.append(("reprint", "reformat_import_statements on the printed block is not the identity: %r becomes %r" % (text, im["reformat"])))
     N = c["params"]["width"] or 79
     for line in text.split("\n"):
         if len(line) > N:
@@ -812,6 +829,8 @@ def compare(ctx, cases, impl, index, model):
                     if m != o["print"]:
                         ctx.disagreement("ImportSet.pretty_print (same object, operation %d)" % oi, sub, o["print"], m)
                     fake = {"set": im["set"], "conflicts": im["conflicts"], "print": o["print"], "reprint": o.get("reprint")}
+                    if "reformat" in o:
+                        fake["reformat"] = o["reformat"]
                     for clause, detail in oracle_set(ctx, {"params": op[1]}, fake):
                         ctx.violation(clause, sub, "operation %d on one ImportSet object: %s" % (oi, detail))
                     nontriv = True
